@@ -321,6 +321,86 @@ def corrupt_tail_leg(ctx, rep, rnd, tier, only=None):
     return n
 
 
+def quota_leg(ctx, rep, rnd, tier, only=None):
+    """flow control must not make framing depend on chunking: a daemon with a small max_incoming_bytes; a stream whose first
+    message makes the connection's live incoming bytes hit the limit exactly / one below / one above, followed by calls to the
+    bus; every partition (cuts at the message boundary, inside the next fixed header, byte by byte, inside the big message)
+    must get the same replies as the unsplit stream"""
+    import socket, time
+    sys.path.insert(0, os.path.join(vlib.VERIF, "harness", "py"))
+    from rawbus import Daemon, Msg, parse_message
+    LIMIT = 5000
+    d = Daemon(ctx["info"]["daemon"], limits='<limit name="max_incoming_bytes">%d</limit>' % LIMIT)
+    n = 0
+    try:
+        def session(chunks):
+            s = socket.socket(socket.AF_UNIX, socket.SOCK_STREAM)
+            s.settimeout(5.0)
+            s.connect(d.sock)
+            s.sendall(b"\0AUTH EXTERNAL " + str(os.getuid()).encode().hex().encode() + b"\r\nBEGIN\r\n")
+            buf = b""
+            while b"\r\n" not in buf:
+                buf += s.recv(4096)
+            hello = Msg(1, 0, 1, {1: "/org/freedesktop/DBus", 2: "org.freedesktop.DBus", 3: "Hello", 6: "org.freedesktop.DBus"}).encode()
+            s.sendall(hello)
+            data = bytearray()
+            got = []
+            def pump(want, timeout):
+                s.settimeout(timeout)
+                try:
+                    while len(got) < want:
+                        b = s.recv(65536)
+                        if not b:
+                            got.append("EOF"); return
+                        data.extend(b)
+                        while True:
+                            m, k = parse_message(data)
+                            if m is None:
+                                break
+                            del data[:k]
+                            if m.mtype in (2, 3) and m.fields.get(5, 0) >= 1:
+                                got.append((m.fields.get(5), m.mtype))
+                except socket.timeout:
+                    got.append("TIMEOUT")
+            pump(1, 5.0)
+            try:
+                for c in chunks:
+                    s.sendall(c)
+                    time.sleep(0.004)
+            except OSError:
+                pass
+            pump(4, 2.5)
+            s.close()
+            return got[1:]
+        for delta in ((0, -1, 1, -8, 8) if tier == "quick" else range(-9, 10)):
+            for le in (True, False):
+                base = len(Msg(4, 0, 2, {1: "/t", 2: "t.I", 3: "Big"}, "ay", (b"",), le=le).encode())
+                big = Msg(4, 0, 2, {1: "/t", 2: "t.I", 3: "Big"}, "ay", (bytes(LIMIT + delta - base),), le=le).encode()
+                calls = [Msg(1, 0, 3 + k, {1: "/org/freedesktop/DBus", 2: "org.freedesktop.DBus", 3: "GetId" if k != 1 else "ListNames", 6: "org.freedesktop.DBus"}, le=(k % 2 == 0) == le).encode() for k in range(3)]
+                whole = big + b"".join(calls)
+                L = len(big)
+                cutsets = [[], [L], [L + 1], [L + 8], [L + 16], [L - 1], [L - 100], [2048], [4096], [L, L + len(calls[0])], [L + k for k in range(0, len(whole) - L)]]
+                if only is not None:
+                    cutsets = [only["cuts"]]
+                ref = session([whole])
+                if len(ref) != 3 or "EOF" in ref or "TIMEOUT" in ref:
+                    if LIMIT + delta > LIMIT or True:
+                        pass
+                for cuts in cutsets:
+                    got = session(split_at(whole, cuts))
+                    n += 1
+                    if got != ref:
+                        rep.violation("max_incoming_bytes=%d, a %d-byte message followed by three calls: written in chunks %s the replies are %s, written in one piece they are %s" % (
+                            LIMIT, len(big), [len(c) for c in split_at(whole, cuts)][:12], got[:5], ref[:5]),
+                            {"leg": "quota", "delta": delta, "le": le, "cuts": cuts, "got": str(got), "ref": str(ref)})
+                        break
+    finally:
+        rc, err = d.stop()
+        if rc not in (0, -15) or "ERROR: AddressSanitizer" in err or "runtime error" in err:
+            rep.violation("daemon died or reported a sanitizer error during the quota leg: rc=%s %s" % (rc, err[-500:]), {"leg": "quota", "stderr": err})
+    return n
+
+
 def run(ctx):
     rep, tier, info = ctx["rep"], ctx["tier"], ctx["info"]
     rnd = random.Random(ctx["seed"])
@@ -366,6 +446,9 @@ def run(ctx):
         if rp.get("leg") == "handshake":
             handshake_leg(ctx, rep, rnd, tier)
             cases = []
+        elif rp.get("leg") == "quota":
+            quota_leg(ctx, rep, rnd, tier, only=rp)
+            cases = []
         elif rp.get("leg") == "corrupt-tail":
             corrupt_tail_leg(ctx, rep, rnd, tier, only=rp)
             cases = []
@@ -410,11 +493,12 @@ def run(ctx):
         n_fd, n_lim = fd_stream_leg(ctx, rep, rnd, tier)
         n_fdd = fd_daemon_leg(ctx, rep, rnd, tier)
         meta["corrupt_tail_partitions"] = corrupt_tail_leg(ctx, rep, rnd, tier)
+        meta["quota_partitions"] = quota_leg(ctx, rep, rnd, tier)
     meta["fd_stream_cases"] = n_fd
     meta["fd_stream_cases_with_limited_reads"] = n_lim
     meta["fd_daemon_partitions"] = n_fdd
     rep.coverage.update({
-        "evaluations": len(cases) + n_hs + n_fd + n_fdd + meta.get("corrupt_tail_partitions", 0), "distinct_nontrivial": len(nontrivial),
+        "evaluations": len(cases) + n_hs + n_fd + n_fdd + meta.get("corrupt_tail_partitions", 0) + meta.get("quota_partitions", 0), "distinct_nontrivial": len(nontrivial),
         "rule": "streams of 1-8 random valid messages (both byte orders, sizes 16 B - 70 KB), half of them followed by a corrupted message and more bytes; "
                 "cut sets: every single cut at fixed-header/ header-end / message-end boundaries +-1, one-byte chunks for streams <= 600 bytes, random multi-cuts; "
                 "all subsets of 14 boundary cut points of a two-message stream (thorough; every 7th in quick). non-trivial = more than one chunk. "
@@ -422,7 +506,8 @@ def run(ctx):
                 "honouring the loader's read limit: limits asked for, stall flag, messages and verdict = model (max_to_read / feed_limited) and = unsplit; "
                 "and against the real daemon: a descriptor-carrying message to oneself written in two pieces cut at offsets 1..25, header end +-1, last byte, both byte orders; "
                 "corrupt-tail leg against the real daemon: K valid messages to a second connection + an invalid one (bad version / type 0 / insane length / bad UTF-8 in the body) + one more, "
-                "in one write and cut before / inside / after the invalid message and byte by byte: the receiver gets exactly the K messages, the sender is disconnected",
+                "in one write and cut before / inside / after the invalid message and byte by byte: the receiver gets exactly the K messages, the sender is disconnected; "
+                "quota leg: daemon with max_incoming_bytes=5000, a message of exactly / around that size followed by three calls, cut at the boundary, inside the next header, byte by byte: same replies as in one piece",
         "samples": [{"chunks": [len(c) for c in ch][:20], "impl": i[:100]} for (_, ch), i in list(zip(cases, impl))[::max(1, len(cases) // 8)]][:8],
         "input_distribution": meta, "traces_validated_against_impl": len(cases), "disagreements_checked": len(rep.violations),
     })
